@@ -129,6 +129,11 @@ inductive Prim where
   | charsetsReset
   /-- ris(): `vt.mode = mode{decawm: true, dectcem: true}` -/
   | modeReset
+  /-- ris(): `vt.cursor.Style = vaxis.Style{}` -/
+  | penReset
+  /-- ris(): `vt.primaryState = cursorState{charsets: charsets{designations: map{g0..g3: ascii}}, decawm: true}` / `vt.altState = …`
+      (the value New() gives them) -/
+  | savedPReset | savedAReset
   deriving DecidableEq, Repr, Inhabited
 
 inductive Stmt where
